@@ -263,6 +263,10 @@ def run(cx):
     ack_queue_discipline(cx, "C02.w")
     from props.shared import receiver_flag_addressing
     receiver_flag_addressing(cx, "C02.x")
+    from props.shared import resend_ref_in_own_frame
+    resend_ref_in_own_frame(cx, "C02.y")
+    from props.C11 import ack_advance_exact
+    ack_advance_exact(cx, "C02.z")
     # a Reliable packet is also "skipped" when the receiver turns it into a data-less packet because its
     # allocation counter drifted (what is charged must be what is released, at both ends), when the frame
     # window refuses the sender's resynchronisation after a fully lost window, or when an id comparison
